@@ -1,7 +1,8 @@
 #!/bin/sh
-# run_seeded.sh <prop> <dir-with-patch.diff> : applies the patch to a scratch worktree of /repo's HEAD and runs ./check <prop> against it
+# run_seeded.sh <prop> <dir-with-patch.diff> [lines] : applies the patch to a scratch worktree of /repo's HEAD
+# (one per property, so lanes for different properties can run concurrently) and runs ./check <prop> against it
 prop="$1"; src="$2"
-wt=/tmp/mutrepo
+wt=/tmp/mutrepo_$prop
 git -C /repo worktree list | grep -q "$wt " || git -C /repo worktree add -q --detach $wt HEAD
 (cd $wt && git checkout -q -- . && git clean -qfd && git checkout -q --detach $(git -C /repo rev-parse HEAD) && git apply "$src/patch.diff") || { echo "patch does not apply"; exit 2; }
 cd /verif && VERIF_REPO=$wt ./check $prop 2>&1 | grep "VIOLATION\|^\[violation\]\|^\[$prop\]\|KNOWN-FINDING" | cut -c1-240 | grep -v "^KNOWN" | head -${3:-5}
